@@ -10,6 +10,7 @@
                                                                                table restricted to what Inspect reaches; a default `(float "text")` in the
                                                                                answer = not determined by the model)
     (marshal DEF TYPE VAL)                                                   → (some "text") | none
+    (heapclone FUEL BASE ROOT (tbl ("name" ADDR)…) (heap NODE…))             → (cloned ROOT' NEXT NODE…) | (error "…")   (HeapDriver.lean: Clone over the explicit heap)
     (roundtrip DEF TYPE VAL "text")                                          → (rt covered nf parses coerces)   (four booleans: the value is of the
                                                                                classes default_roundtrip covers; it is in coercion normal form; the
                                                                                specification parser reads "text" as exactly the literal denoting VAL;
@@ -33,6 +34,7 @@ import ApiFu.Common.Loop
 import ApiFu.C10.Model
 import ApiFu.C10.Literal
 import ApiFu.C10.RebuildKeep
+import ApiFu.C10.HeapDriver
 
 open ApiFu ApiFu.C10
 
@@ -403,6 +405,8 @@ def handleWith (cur : Option GDef) (line : String) : String :=
         | none => false
       toString (Sexp.node "rt" [Sexp.ofBool (covered v), Sexp.ofBool (nf d t.ref v), Sexp.ofBool parses, Sexp.ofBool coerces])
     | _, _, _ => err "bad-arguments"
+  | some (.list [.atom "heapclone", fuel, base, root, .list (.atom "tbl" :: tbl), .list (.atom "heap" :: heap)]) =>
+    C10HeapDriver.op fuel base root tbl heap
   | _ => "bad-op"
 
 end C10Driver
